@@ -123,6 +123,20 @@ fn check_list(rep: &mut Report, s: &Singles, hays: &[String], members: &[usize],
         rep.violation("load-failed", "c07-load-list", &format!("list of valid patterns does not load: {:?}", members.iter().map(|i| &s.pats[*i]).collect::<Vec<_>>()), json!({"rule": text}));
         return;
     };
+    // the same members as one-pattern identifiers joined by `or` (plus one that never matches, so
+    // that there are at least three operands): the optimiser merges them itself, in the order it
+    // meets them - another way of batching than the loader's
+    let split_rule: Option<tau_engine::Rule> = if also_opt {
+        let mut idents: Vec<(String, Ident)> = vals.iter().enumerate().map(|(i, v)| (format!("M{}", i), Ident::Map(vec![(Key::plain("k"), v.clone())]))).collect();
+        idents.push((format!("M{}", idents.len()), Ident::Map(vec![(Key::plain("k"), RVal::Str("*\u{1}zz\u{1}*".into()))])));
+        let mut cond = Cond::id("M0");
+        for i in 1..idents.len() {
+            cond = Cond::or(cond, Cond::id(&format!("M{}", i)));
+        }
+        RuleAst { idents, cond, tp: vec![], tn: vec![] }.to_text().and_then(|t| eng::load_ok(&t)).and_then(|r| eng::optimise(&r, Sw(15)).ok())
+    } else {
+        None
+    };
     let nast = single_rule(&Key::with("k", KMod::Not), RVal::List(vals));
     let nrule = nast.to_text().and_then(|t| eng::load_ok(&t));
     let orule = if also_opt { eng::optimise(&rule, Sw(15)).ok() } else { None };
@@ -155,6 +169,15 @@ fn check_list(rep: &mut Report, s: &Singles, hays: &[String], members: &[usize],
                 return;
             }
         }
+        if let Some(sr) = &split_rule {
+            rep.evaluations += 1;
+            let sg = eng::matches(sr, &m).unwrap_or(!want);
+            if sg != want {
+                let names: Vec<&str> = members.iter().map(|i| s.pats[*i].as_str()).collect();
+                rep.violation("list-split", "c07-list-split-optimised", &format!("patterns {:?} as separate identifiers joined by or, optimised, on {:?}: engine {} , some-member-matches {}", names, h, sg, want), mon::case(&text, &doc(h), Some(Sw(15)), json!(want), json!(sg), json!({"members": names, "form": "M0 or M1 or .. (one identifier per member)"})));
+                return;
+            }
+        }
         if let Some(or) = &orule {
             rep.evaluations += 1;
             let og = eng::matches(or, &m).unwrap_or(!want);
@@ -175,6 +198,9 @@ pub fn run(ctx: &Ctx) -> i32 {
             hays.push(format!("{}{}{}", pre, n, post));
         }
     }
+    for h in ["h\u{e9}llo", "\u{663}", "caf\u{e9}", "\u{212a}", "\u{17f}", "\u{a0}", "\u{e9}", "\u{c9}", "\u{65e5}\u{672c}", "a\u{301}", "\u{130}", "\u{131}", "\u{df}", "\u{2028}", "\u{85}", "\u{1f600}", "k", "S", "caf", "a\rb", "a\nb", "\r", "ab\r"] {
+        hays.push(h.to_string());
+    }
     // ---- singles (exhaustive)
     let mut rep = Report::new();
     let mut pats: Vec<String> = vec![];
@@ -184,6 +210,11 @@ pub fn run(ctx: &Ctx) -> i32 {
                 pats.push(p);
             }
         }
+    }
+    // regexes whose meaning depends on Unicode support (classes, word boundaries, case folding)
+    for r in ["?^\\w+$", "?\\d", "?\\bcaf\\b", "?^\\W$", "?\\s", "?^.$", "?^..$", "?^\\S$", "?\\b\\w", "?[[:alpha:]]", "?\\pL", "?^k$", "?^s$", "?\u{e9}", "?^\\w\\b", "?\\B."] {
+        pats.push(r.to_string());
+        pats.push(format!("i{}", r));
     }
     // regexes whose meaning depends on the case of their own text
     for r in ["?^\\S+$", "?\\D", "?\\W", "?\\Bb", "?^[A-B]+$", "?\\x41", "?a\\S", "?^\\w\\W?$"] {
